@@ -34,6 +34,7 @@ import Flowjaxv.Driver.FamiliesGen
 import Flowjaxv.Driver.TriangularGen
 import Flowjaxv.Driver.WrapperGen
 import Flowjaxv.Driver.PermGen
+import Flowjaxv.Driver.MergeGen
 /-!
 Model driver: `lake env lean --run Driver.lean < ops.txt`.  One op per line in, one line out
 (`ERR <msg>` when the model rejects the op).
@@ -51,6 +52,8 @@ def dispatch (line : String) : String :=
       | "vtree" => vtree args
       | "ctree" => ctree args
       | "tdist" => tdist args
+      | "mgmt" => mgmt args
+      | "mgch" => mgch args
       | "atree" => atree args
       | "atreeh" => atreeh args
       | "jnpprim" => jnpprim args
